@@ -1,33 +1,39 @@
 use rusty_linter::core::CastVariant;
 use rusty_parser::TypeQualifier;
+use rusty_variant::Variant;
 
 use crate::RuntimeError;
 use crate::interpreter::interpreter_trait::InterpreterTrait;
 
 pub fn and<T: InterpreterTrait>(interpreter: &mut T) -> Result<(), RuntimeError> {
-    let a = interpreter
-        .registers()
-        .get_a()
-        .cast(TypeQualifier::PercentInteger)?;
-    let b = interpreter
-        .registers()
-        .get_b()
-        .cast(TypeQualifier::PercentInteger)?;
+    let (a, b) = whole_number_operands(interpreter)?;
     interpreter.registers_mut().set_a(a.and(b)?);
     Ok(())
 }
 
 pub fn or<T: InterpreterTrait>(interpreter: &mut T) -> Result<(), RuntimeError> {
-    let a = interpreter
-        .registers()
-        .get_a()
-        .cast(TypeQualifier::PercentInteger)?;
-    let b = interpreter
-        .registers()
-        .get_b()
-        .cast(TypeQualifier::PercentInteger)?;
+    let (a, b) = whole_number_operands(interpreter)?;
     interpreter.registers_mut().set_a(a.or(b)?);
     Ok(())
+}
+
+/// Converts the operands of AND / OR (registers A and B) to INTEGER,
+/// or both to LONG if one of them does not fit an INTEGER.
+fn whole_number_operands<T: InterpreterTrait>(
+    interpreter: &T,
+) -> Result<(Variant, Variant), RuntimeError> {
+    let a = interpreter.registers().get_a();
+    let b = interpreter.registers().get_b();
+    match (
+        a.clone().cast(TypeQualifier::PercentInteger),
+        b.clone().cast(TypeQualifier::PercentInteger),
+    ) {
+        (Ok(int_a), Ok(int_b)) => Ok((int_a, int_b)),
+        _ => Ok((
+            a.cast(TypeQualifier::AmpersandLong)?,
+            b.cast(TypeQualifier::AmpersandLong)?,
+        )),
+    }
 }
 
 pub fn negate_a<T: InterpreterTrait>(interpreter: &mut T) -> Result<(), RuntimeError> {
